@@ -246,7 +246,7 @@ def run(chk, drv):
     chk.extra["rule"] = ("messages built by constructors, filled in place through nested access (also with default values only: presence without content), decoded from bytes (with unknown fields) and loaded from dicts; a random sequence of observers (attribute reads incl. "
                          "lazily defaulted nested messages, bytes, len, ==, bool, repr, to_dict, to_json, to_pydict, is_set, which_one_of), then copy / deepcopy / pickle; every mutable "
                          "path of a deep / unpickled copy is mutated and the original re-checked. non-trivial = message with ≥ 1 set field; distinct by (schema, value, observer sequence)")
-    nb = 50 if quick else 500
+    nb = 160 if quick else 800
     for bi in range(nb):
         b = W.Batch(rng, "p%d" % bi, 8)
         W.count_features(chk, b)
